@@ -151,3 +151,49 @@ func __canUnread(r *bufio.Reader) bool { return true }
 //@   ensures ok ==> __canUnread(dec.r)
 //@   ensures !ok ==> dec.err != nil
 //@   ensures dec.literal == old(dec.literal) && dec.listDepth == old(dec.listDepth)
+
+// ---------------------------------------------------------------------------
+// C18 / C01: what the encoder may put on the wire.
+
+// ValidQuotedSpec: s may be sent as a quoted string — at most 4096 bytes, no
+// NUL, CR or LF, and 8-bit bytes only when UTF-8 quoting was negotiated.
+//
+//@ pure
+func ValidQuotedSpec(utf8ok bool, s string) bool {
+	return len(s) <= 4096 && __forall(func(i int) bool {
+		return !(0 <= i && i < len(s)) || (s[i] != 0 && s[i] != '\r' && s[i] != '\n' && (utf8ok || s[i] <= 127))
+	})
+}
+
+//@ func (enc *Encoder) validQuoted(s string) (result bool)
+//@   props C18 C01
+//@   requires enc != nil
+//@   ensures result == ValidQuotedSpec(enc.QuotedUTF8, s)
+//@   loop 0 vars (i int)
+//@   loop 0 invariant 0 <= i && i <= len(s) && len(s) <= 4096
+//@   loop 0 invariant forall k int :: 0 <= k && k < i ==> s[k] != 0 && s[k] != 13 && s[k] != 10 && (enc.QuotedUTF8 || s[k] <= 127)
+//@   loop 0 decreases len(s) - i
+
+// String uses the quoted form only for strings that may be quoted.
+//
+//@ func (enc *Encoder) String(s string) (result *Encoder)
+//@   props C18:callsite,post,pre@call C01:callsite,post,pre@call
+//@   requires enc != nil
+//@   callsite Encoder.Quoted(e *Encoder, q string) requires ValidQuotedSpec(e.QuotedUTF8, q)
+
+// NonSyncAllowed: a client may send a non-synchronising literal of this size.
+//
+//@ pure
+func NonSyncAllowed(enc *Encoder, size int64) bool {
+	return enc.LiteralPlus || (enc.LiteralMinus && size <= 4096)
+}
+
+// stringLiteral: on the client side a literal without continuation request is
+// only used when the negotiated extensions allow it for that size; without a
+// way to synchronise, an error is recorded and no literal is started.
+//
+//@ func (enc *Encoder) stringLiteral(s string)
+//@   props C18:callsite,post,pre@call C01:callsite,post,pre@call
+//@   requires enc != nil
+//@   callsite Encoder.Literal(e *Encoder, size int64, sync *ContinuationRequest) requires size == int64(len(s)) && (e.side == ConnSideClient && sync == nil ==> NonSyncAllowed(e, size))
+//@   ensures !__called("Encoder.Literal") ==> enc.err != nil
